@@ -439,6 +439,10 @@ func runC06(c *core.Ctx) {
 			fp = append(fp, 2<<8)
 		case 2: // GeneratePadding
 			n := t.Intn(5)
+			if t.Chance(1, 1500) {
+				n = []int{65535, 65536, 65537, 70000}[t.Intn(4)] // a burst longer than the sequence-number space
+				c.Probe("padding-burst-beyond-16-bit")
+			}
 			var pkts []*rtp.Packet
 			if c.Guard("rtp.Packetizer.GeneratePadding", func() { pkts = pk.GeneratePadding(uint32(n)) }) {
 				return
